@@ -397,6 +397,9 @@ def gen_fmt_case(rng, idx, forced=None):
         case["asym_container"] = "ndarray" if rng.random() < 0.7 else "tuple"
         if rng.random() < 0.02:
             case["error"] = None  # the constructor documents error=None as valid
+        elif rng.random() < 0.04:
+            # the cost function never rises by one on one side (MINOS: infinite uncertainty there)
+            case["inf_side"] = str(rng.choice(["up", "down", "both"]))
     elif mode == "noerr":
         case["noerr"] = str(rng.choice(["with_errors=False", "error=None", "error=0"]))
         if case["noerr"] == "error=None":
@@ -404,6 +407,53 @@ def gen_fmt_case(rng, idx, forced=None):
         elif case["noerr"] == "error=0":
             case["error"] = 0.0
     return case
+
+
+def run_fmt_inf(ctx, case, a):
+    """asymmetric display with an infinite uncertainty on one or both sides: the infinite side reads 'inf', the other side and the
+    value are still faithful roundings (value: at most half a unit of its last displayed digit; finite uncertainty: n significant digits)"""
+    from kafe2.fit._base.format import ParameterFormatter
+
+    side, n, latex, value = case["inf_side"], case["n"], case["latex"], case["value"]
+    a = np.array(a, dtype=float)
+    if side in ("up", "both"):
+        a[1] = np.inf
+    if side in ("down", "both"):
+        a[0] = -np.inf
+    ctx.op("fmt.infinite-asymmetric-uncertainty")
+    ctx.stratum("fmt", "infinite-asymmetric-uncertainty", side)
+    pf = ParameterFormatter("p", value=value, error=case["error"] if case["error"] is not None else 1.0, asymmetric_error=a)
+    kw = dict(with_name=False, n_significant_digits=n, format_as_latex=latex, asymmetric_error=True)
+    if case["mode"] in NORTE_MODES:
+        kw["round_value_to_error"] = False
+    try:
+        s = pf.get_formatted(**kw)
+    except Exception as e:
+        ctx.check("string.no-exception", False, {"exception": e, "traceback": fmt_exc(), "kwargs": kw, "asymmetric_error": a})
+        return False
+    ctx.check("string.no-exception", True)
+    m = re.match(r"^\$\{(.+)\}\^\{\+(.+)\}_\{-(.+)\}\$$", s) if latex else re.match(r"^(\S+) \+ (\S+) \(up\) - (\S+) \(down\)$", s)
+    if not ctx.check("string.parsed", m is not None, {"string": s, "why": "not the documented asymmetric form"}):
+        return False
+    toks = {"value": m.group(1), "up": m.group(2), "down": m.group(3)}
+    det = {"string": s, "value": value, "asymmetric_error": a, "n_significant_digits": n}
+    ok = True
+    for nm, held in (("up", a[1]), ("down", a[0])):
+        if not np.isfinite(held):
+            ok = ctx.check("string.infinite-side", toks[nm] == "inf", dict(det, side=nm, displayed=toks[nm])) and ok
+        else:
+            try:
+                disp = Num(toks[nm])
+                acc, _pos = round_sig_set(abs(D(float(held))), n)
+                ok = ctx.check("string.asym-error-rounded", num_eq_any(disp.d, acc), lambda: dict(det, side=nm, displayed=toks[nm], expected_error=[str(x) for x in sorted(acc)])) and ok
+            except Exception:
+                ok = ctx.check("string.parsed", False, dict(det, side=nm, displayed=toks[nm])) and ok
+    try:
+        V = Num(toks["value"])
+        ok = ctx.check("string.value-within-half-unit", within_half(V.d, V.q, value), dict(det, displayed=toks["value"])) and ok
+    except Exception:
+        ok = ctx.check("string.parsed", False, dict(det, displayed=toks["value"])) and ok
+    return ok
 
 
 def run_fmt(ctx, case):
@@ -419,6 +469,8 @@ def run_fmt(ctx, case):
     a = None
     if asym is not None:
         a = np.array(asym, dtype=float) if case.get("asym_container", "ndarray") == "ndarray" else (float(asym[0]), float(asym[1]))
+    if case.get("inf_side") and a is not None:
+        return run_fmt_inf(ctx, case, a)
     pf = ParameterFormatter(name or "p", value=value, error=error, asymmetric_error=a)
     if mode == "fixed":
         pf.fixed = True
